@@ -205,7 +205,7 @@ def run(chk):
                 k += 1
                 e = _fill(e, call % (k * 7))
             programs.append(("held:%s:%s" % (name, sname), {"src": HELD_PRELUDE + "const r: any = " + e + ";\nshow(r)", "path": "/c02_h.ts"}))
-    n_gen = 40 if chk.tier == "quick" else 400
+    n_gen = 40 if chk.tier == "quick" else 2000
     for i in range(n_gen):
         g = genprog.Gen(rng, features={}, ts=True)
         programs.append(("generated:%d" % i, {"src": g.program(5, 3), "path": "/c02_g%d.ts" % i}))
